@@ -8,6 +8,7 @@
 //!   abs <rep|cl|on> <b|s> <dw> <dh> <u> <v>        -> "<u>,<v>" | panic
 //!   rel <rep|cl|on> <b|s> <dw> <dh> <u> <v>        -> R A, each "<u>,<v>" | panic:<msg>
 //!   dig <rep|cl|on> <dw> <dh> <v> <start> <count>  -> "<fnv> <npanic> <noob> <nwrong>"
+//!   sib <fallback|libm|mm> <rep|cl> <dw> <dh> <u> <v> -> "<u>,<v>" | panic   (sample_abs in that configuration)
 use std::cell::RefCell;
 use std::collections::HashMap;
 use std::panic::{catch_unwind, AssertUnwindSafe};
@@ -16,6 +17,9 @@ use re::render::tex::{uv, SamplerClamp, SamplerOnce, SamplerRepeatPot, TexCoord,
 use re::util::buf::{AsSlice2, Buf2, Slice2};
 
 use vharness::util::*;
+
+#[path = "../../c20sib/src/co.rs"]
+mod co;
 
 type Texel = u64;
 
@@ -185,6 +189,9 @@ fn run(t: &[&str]) -> String {
             }
             format!("{} {np} {noob} {nwrong}", h64(h))
         }
+        // the same samplers in the other feature configurations of retrofire-core (co-processes built
+        // from harness/c20sib): `math::float::f32::floor` is then fallback's, libm's or the mm adapter's
+        "sib" => co::ask(t[1], &format!("tx {} {} {} {} {}", t[2], t[3], t[4], t[5], t[6])),
         // very wide one-row-high textures (beyond 2^24 the f32 width is not the integer width);
         // u8 texels holding x % 251 keep the allocation small
         "wide" => {
@@ -338,6 +345,27 @@ fn gen(rng: &mut Rng, tier: Tier, out: &mut Vec<String>) {
                 let u = rng.f32_in(-2.0, 6.0).to_bits();
                 let v = rng.f32_in(-2.0, 6.0).to_bits();
                 out.push(format!("abs {smp} b {dw} {dh} {} {}", hu32(u), hu32(v)));
+            }
+        }
+    }
+
+    // the other feature configurations (texture addressing in no_std builds): every pool value as u
+    // and as v on a few small textures
+    co::ensure_siblings();
+    for be in ["fallback", "libm", "mm"] {
+        for (smp, dw, dh) in [("rep", 4u32, 4u32), ("rep", 256, 2), ("rep", 1, 8), ("cl", 4, 4), ("cl", 3, 5), ("cl", 100, 37)] {
+            if smp == "cl" && be == "fallback" {
+                continue; // SamplerClamp is #[cfg(feature = "fp")]
+            }
+            let pu = coord_pool(rng, dw, nrand);
+            let pv = coord_pool(rng, dh, nrand);
+            for &u in &pu {
+                let v = rng.f32_in(-1.0, dh as f32 + 1.0).to_bits();
+                out.push(format!("sib {be} {smp} {dw} {dh} {} {}", hu32(u), hu32(v)));
+            }
+            for &v in &pv {
+                let u = rng.f32_in(-1.0, dw as f32 + 1.0).to_bits();
+                out.push(format!("sib {be} {smp} {dw} {dh} {} {}", hu32(u), hu32(v)));
             }
         }
     }
